@@ -320,6 +320,39 @@ func c12CaseChain(dump string) []string {
 	return nil
 }
 
+// c12CaseBlocked: the case goroutine is parked on a lock / channel / wait group in three samples taken
+// 60 ms apart (a deadlock burns no CPU, so the CPU criterion alone would wait out all six budgets).
+// A goroutine that is merely starved of CPU shows as running or runnable and is not "blocked".
+func c12CaseBlocked() bool {
+	buf := make([]byte, 4<<20)
+	for i := 0; i < 3; i++ {
+		n := runtime.Stack(buf, true)
+		state := ""
+		for _, g := range strings.Split(string(buf[:n]), "\n\n") {
+			if strings.Contains(g, "main.c12CaseGoroutine") {
+				hdr := g
+				if j := strings.Index(g, "\n"); j >= 0 {
+					hdr = g[:j]
+				}
+				if a, b := strings.Index(hdr, "["), strings.Index(hdr, "]"); a >= 0 && b > a {
+					state = hdr[a+1 : b]
+				}
+			}
+		}
+		blocked := false
+		for _, w := range []string{"semacquire", "sync.", "chan receive", "chan send", "select", "sleep"} {
+			if strings.Contains(state, w) {
+				blocked = true
+			}
+		}
+		if !blocked {
+			return false
+		}
+		time.Sleep(60 * time.Millisecond)
+	}
+	return true
+}
+
 // c12SampleChain samples the case goroutine several times and returns the longest common prefix of
 // its call chain, innermost first: the last common frame is the function that does not return.
 func c12SampleChain(samples int, gap time.Duration) []string {
@@ -421,7 +454,7 @@ func c12WorkerMain() {
 						// proves nothing. Wait on while the process has burnt less than 60 % of the budget in
 						// CPU time, but never longer than 6 budgets (a blocked goroutine burns nothing).
 						used := c12CPU() - cpu0
-						if used < slice*6/10 && time.Since(t0) < 6*slice {
+						if used < slice*6/10 && time.Since(t0) < 6*slice && !c12CaseBlocked() {
 							deadline.Reset(slice / 2)
 							continue
 						}
@@ -967,8 +1000,10 @@ func runC12(r *Run, rng *Rng, tier string) error {
 			if strings.HasPrefix(m, "directed:") {
 				w := strings.Fields(m)
 				key := w[0]
-				if len(w) > 1 {
+				if len(w) > 1 && w[0] != "directed:openapi-layers" && w[0] != "directed:emptyfile" {
 					key += " " + strings.SplitN(w[1], "=", 2)[0]
+				} else if len(w) > 1 && w[0] == "directed:emptyfile" {
+					key += " " + w[1]
 				}
 				r.Count("directed", key)
 				r.Count("directed_outcome", strings.SplitN(w[0], ":", 3)[1]+" -> "+res.Outcome)
